@@ -1,6 +1,9 @@
 import GB.C20.Model
 import GB.C20.Spec
 import GB.C20.ProofsTrie
+import GB.C20.ProofsGwMain
+import GB.C20.ProofsStMain
+import GB.C20.ProofsVerb
 import GB.Generated.Facts
 /-
   C20 — property theorems. Helper lemmas live in Proofs*.lean.
@@ -64,6 +67,131 @@ theorem C20_facts_fixes :
     GB.Generated.c20GwParseChecksVerb = true ∧ GB.Generated.c20GwParseExactSlash = true := by
   decide
 
+/-! ### the grammar recogniser used as the oracle of the correspondence run -/
+
+/-- A `some` answer of the recogniser is a derivation (with that abstract syntax): the oracle never
+    calls a string derivable that is not. (The converse — the recogniser finds every derivation — is
+    not proved; it is exercised on every enumerated derivation of the run, where a miss would show up
+    as a violation on the unchanged tree.) -/
+theorem C20_recogniser_sound (s : Bytes) (t : Tmpl) (h : specParse s = some t) : Derives s t := by
+  unfold specParse specParseWith at h
+  cases hc : specCandidate s with
+  | none => simp [hc] at h
+  | some t' =>
+    simp only [hc] at h
+    by_cases hw : (t'.wfB false && t'.render == s) = true
+    · simp only [hw, if_true, Option.some.injEq] at h
+      subst h
+      simp only [Bool.and_eq_true, beq_iff_eq] at hw
+      exact ⟨hw.1, hw.2⟩
+    · simp [hw] at h
+
+/-! ### tokenizer (both packages), over arbitrary byte strings -/
+
+/-- the tokens are a partition of the input: nothing is dropped, reordered or invented -/
+theorem C20_tokens_concat (s : Bytes) : (tokCore .seg [] s).flatten = s := by
+  simpa using tokCore_concat s .seg []
+
+/-- no token is empty (the strict parser's `checkIdent` / `checkLiteral` rely on it) -/
+theorem C20_tokens_nonempty (s : Bytes) : ∀ t ∈ tokCore .seg [] s, t ≠ [] :=
+  tokCore_nonempty s .seg []
+
+/-! ### gwbased parser (the one routing uses) -/
+
+/-- **Completeness, with the verb and field paths of the grammar.** Every string the grammar derives is
+    accepted by `Parse`; the template it returns has the verb the grammar assigns, `Compile()` reports
+    exactly the grammar's field paths (in order), and its segments are the grammar's (`gwSegsOf`: the
+    root template is the literal eof token, as in the Go code). -/
+theorem C20_gw_complete (s : Bytes) (t : Tmpl) (h : Derives s t) :
+    ∃ g, gwParse s = .ok g ∧ g.verb = t.verbStr ∧ g.compile.verb = t.verbStr ∧
+      g.compile.fields = t.fields ∧ g.segs = gwSegsOf t ∧ g.tmpl = s := by
+  obtain ⟨hw, hr⟩ := h
+  obtain ⟨g, h1, h2, h3, h4⟩ := gwParse_render false t hw
+  rw [hr] at h1 h4
+  exact ⟨g, h1, h3, by simp [GwTemplate.compile, h3], gw_fields false t hw g h2, h2, h4⟩
+
+/-- The same for the relaxed grammar (`**` anywhere): gwbased does not restrict the position of `**`. -/
+theorem C20_gw_complete_relaxed (s : Bytes) (t : Tmpl) (h : DerivesRelaxed s t) :
+    ∃ g, gwParse s = .ok g ∧ g.verb = t.verbStr ∧ g.compile.fields = t.fields ∧ g.segs = gwSegsOf t := by
+  obtain ⟨hw, hr⟩ := h
+  obtain ⟨g, h1, h2, h3, h4⟩ := gwParse_render true t hw
+  rw [hr] at h1
+  exact ⟨g, h1, h3, gw_fields true t hw g h2, h2⟩
+
+/-- the hypothesis of `C20_gw_complete` is satisfiable: `/v1/{name=a/*}:get` with its derivation -/
+example : Derives [47, 118, 49, 47, 123, 110, 97, 109, 101, 61, 97, 47, 42, 125, 58, 103, 101, 116]
+    { segs := [.lit [118, 49], .var [[110, 97, 109, 101]] (some [.lit [97], .wild])], verb := some [103, 101, 116] } := by
+  constructor
+  · show Tmpl.wfB false _ = true
+    decide
+  · decide
+
+/-
+  Full statement of the rejection clause (DESIGN 5.20):
+    C20_gw_rejects : noLeadingSlash s ∨ illegalChar s ∨ badPercent s ∨ badBraces s ∨ badFieldPath s ∨ emptySegment s
+                       → ∀ g, gwParse s ≠ .ok g
+  Proved below: no leading slash, NUL. The remaining classes need the converse of `C20_gw_complete_relaxed`
+  (gwParse s = .ok g → ∃ t, DerivesRelaxed s t), which is not proved (it needs the tokenizer/parser state
+  synchronisation argument behind "variable inside variable is not possible thanks to tokenize"). They are
+  checked on every run against the recogniser for all strings of length ≤ 5 over {/ { } = . * : a %}, every
+  single-edit mutation of sampled derivations and random strings (driver verdict VIOL).
+-/
+theorem C20_gw_rejects_partial (s : Bytes) (h : noLeadingSlash s = true ∨ (0 : UInt8) ∈ s) :
+    gwParse s = .error .reject := by
+  unfold gwParse gwParseWith
+  cases s with
+  | nil => rfl
+  | cons c body =>
+    simp only
+    by_cases hc : (c != cSlash) = true
+    · simp [hc]
+    · simp only [hc, Bool.false_eq_true, if_false]
+      rcases h with h | h
+      · simp [noLeadingSlash] at h hc; exact absurd hc h
+      · have : (c :: body).contains 0 = true := by simpa using h
+        simp only [this, if_true]
+
+/-! ### strict parser -/
+
+/-
+  Full statement:  C20_strict_exact : (∃ T, stParse s = .ok T) ↔ (∃ t, Derives s t)
+  Proved: the direction ⇐ (every string of the grammar is accepted, with the grammar's verb).
+  Missing: ⇒ (acceptance implies derivability); same missing argument as for gwbased. The run checks it
+  on every case line (`st`): the implementation and the model must reject whatever the recogniser rejects.
+-/
+theorem C20_strict_exact_partial (s : Bytes) (t : Tmpl) (h : Derives s t) :
+    ∃ T, stParse s = .ok T ∧ T.verb = t.verbStr ∧ T.tmpl = s := by
+  obtain ⟨hw, hr⟩ := h
+  obtain ⟨T, h1, h2, h3⟩ := stParse_render t hw
+  rw [hr] at h1 h3
+  exact ⟨T, h1, h2, h3⟩
+
+/-- the strict parser rejects what has no leading slash or contains the in-band eof byte -/
+theorem C20_strict_rejects_partial (s : Bytes) (h : noLeadingSlash s = true ∨ (0 : UInt8) ∈ s) :
+    stParse s = .error .reject := by
+  unfold stParse
+  cases s with
+  | nil => rfl
+  | cons c body =>
+    simp only
+    by_cases hc : (c != cSlash) = true
+    · simp [hc]
+    · simp only [hc, Bool.false_eq_true, if_false]
+      rcases h with h | h
+      · simp [noLeadingSlash] at h hc; exact absurd hc h
+      · have : (c :: body).contains 0 = true := by simpa using h
+        simp only [this, if_true]
+
+/-- D23: an empty last segment before a verb is rejected by the repaired parser ("/a/:v"), as "/a/" is -/
+theorem C20_strict_empty_last_segment :
+    (stParse [47, 97, 47, 58, 118]).toOption.isNone = true ∧ (stParse [47, 97, 47]).toOption.isNone = true ∧
+    (stParse [47, 58, 118]).toOption.map (·.dump) = some [76, 40, 41, 124, 118, 101, 114, 98, 61, 118] := by
+  decide
+
+/-- the verb of a template the strict parser returns never contains "/" -/
+theorem C20_strict_verb_noslash (s : Bytes) (T : StTemplate) (h : stParse s = .ok T) : cSlash ∉ T.verb :=
+  stParse_verb_noslash s T h
+
 /-! ### trie -/
 
 /-- **Trie soundness.** Whatever `Find` may return (for every iteration order of the `verbs` map) is
@@ -76,6 +204,16 @@ theorem C20_trie_sound (t : Trie) (hv : ∀ e ∈ t, cSlash ∉ e.verb) (m p : B
     e ∈ t ∧ e.method = m ∧
       Matches (e.keys.map Key.mkey) e.verb (splitOnByte cSlash (trimLeadingSlash p)) :=
   find_sound t hv m p e h
+
+/-- `C20_trie_sound` for a trie filled with templates the strict parser returned (no hypothesis left). -/
+theorem C20_trie_sound_parsed (t : Trie)
+    (hp : ∀ e ∈ t, ∃ s T, stParse s = .ok T ∧ e.verb = T.verb) (m p : Bytes) (e : Entry) (h : e ∈ t.find m p) :
+    e ∈ t ∧ e.method = m ∧ Matches (e.keys.map Key.mkey) e.verb (splitOnByte cSlash (trimLeadingSlash p)) := by
+  refine find_sound t ?_ m p e h
+  intro e he
+  obtain ⟨s, T, hs, hv⟩ := hp e he
+  rw [hv]
+  exact stParse_verb_noslash s T hs
 
 /-- Why D20 needed a repair: with the old `dfsLeaf` (suffix test even after a literal match, i.e. `wild`
     always true) the trie holding `/a:v:v` answers `/a:v` with it, which does not match. -/
